@@ -983,13 +983,74 @@ class Kinds:
         self.checks.append((node, key, exp, self.kind(key)))
 
 
+def _callee(corpus: Corpus, fi: FunctionInfo, call: ast.Call) -> FunctionInfo | None:
+    """The function a call denotes when it is a module-level function of the same module, an imported
+    package function, or ``self.m`` / ``cls.m`` of the enclosing class (also in sibling sources)."""
+    f = call.func
+    if isinstance(f, ast.Name):
+        if f.id in fi.module.functions:
+            return fi.module.functions[f.id]
+        return corpus.find_function(fi.module.resolve(f.id))
+    if isinstance(f, ast.Attribute) and isinstance(f.value, ast.Name) and f.value.id in ("self", "cls"):
+        owner = fi
+        while owner is not None and owner.cls is None:
+            owner = owner.parent_func
+        if owner is not None:
+            return fi.module.functions.get(f"{owner.cls.name}.{f.attr}")
+    d = dotted(f)
+    return corpus.find_function(fi.module.resolve(d)) if d else None
+
+
+def _callees(corpus: Corpus, fi: FunctionInfo) -> list[tuple[ast.Call, FunctionInfo]]:
+    out = []
+    for c in fi.local_nodes():
+        if isinstance(c, ast.Call):
+            t = _callee(corpus, fi, c)
+            if t is not None and t.fq != fi.fq and not t.is_lambda:
+                out.append((c, t))
+    out.sort(key=lambda ct: (ct[0].lineno, ct[0].col_offset))
+    return out
+
+
+def _param_arg(callee: FunctionInfo, call: ast.Call, name: str):
+    """The argument expression a call passes for parameter ``name`` of ``callee`` (None if defaulted/unknown)."""
+    params = list(callee.params)
+    if params and params[0] in ("self", "cls") and isinstance(call.func, ast.Attribute):
+        params = params[1:]
+    for kw in call.keywords:
+        if kw.arg == name:
+            return kw.value
+    if name in params:
+        i = params.index(name)
+        if i < len(call.args) and not any(isinstance(a, ast.Starred) for a in call.args[: i + 1]):
+            return call.args[i]
+    return None
+
+
+def _returns_record(corpus: Corpus, f: FunctionInfo, depth: int = 0) -> bool:
+    """Does ``f`` return an InventoryType record (annotation, dict literal with "objects", or a helper's)?"""
+    if f.is_lambda or depth > 2:
+        return False
+    if _ann_text(f.node.returns) == "InventoryType":
+        return True
+    for n in f.local_nodes():
+        if isinstance(n, ast.Return) and n.value is not None:
+            if isinstance(n.value, ast.Dict) and _dict_value(n.value, "objects") is not None:
+                return True
+            if isinstance(n.value, ast.Call):
+                t = _callee(corpus, f, n.value)
+                if t is not None and _returns_record(corpus, t, depth + 1):
+                    return True
+    return False
+
+
 def _ann_text(a) -> str:
     if a is None:
         return ""
     return unparse(a).strip("'\"")
 
 
-def _kind_seeds(fi: FunctionInfo, extra: dict[str, object]) -> dict[str, object]:
+def _kind_seeds(corpus: Corpus, fi: FunctionInfo, extra: dict[str, object]) -> dict[str, object]:
     seeds: dict[str, object] = dict(extra)
     args = fi.node.args
     for a in args.posonlyargs + args.args + args.kwonlyargs:
@@ -1004,6 +1065,15 @@ def _kind_seeds(fi: FunctionInfo, extra: dict[str, object]) -> dict[str, object]
             for t in n.targets if isinstance(n, ast.Assign) else [n.target]:
                 if isinstance(t, ast.Name):
                     seeds[t.id] = REC
+        elif isinstance(n, ast.AnnAssign) and isinstance(n.target, ast.Name) and _ann_text(n.annotation) == "InventoryType":
+            seeds[n.target.id] = REC
+        elif isinstance(n, (ast.Assign, ast.AnnAssign)) and isinstance(n.value, ast.Call):
+            # record built by a private helper: invdata = _read_project_header(stream, base_url)
+            t_ = _callee(corpus, fi, n.value)
+            if t_ is not None and _returns_record(corpus, t_):
+                for t in n.targets if isinstance(n, ast.Assign) else [n.target]:
+                    if isinstance(t, ast.Name):
+                        seeds[t.id] = REC
         if isinstance(n, ast.Return) and n.value is not None:
             if isinstance(n.value, ast.Dict):
                 v = _dict_value(n.value, "objects")
@@ -1038,7 +1108,7 @@ def r3_key_kinds(corpus: Corpus, rep: Report, tier: str):
     ]
     for fi, extra in plan:
         rep.saw_function(fi.fq)
-        kinds = Kinds(fi, _kind_seeds(fi, extra))
+        kinds = Kinds(fi, _kind_seeds(corpus, fi, extra))
         if not kinds.checks:
             raise Unsupported(f"{fi.fq}: no access to an inventory dictionary was typed")
         seen = set()
@@ -1738,30 +1808,71 @@ def _v1_table(fi: FunctionInfo, sentinel: str, A):
     return chain, out, loop
 
 
-def _slice_offset(fi: FunctionInfo, e) -> int:
-    """lower bound of the ``[n:]`` slice in the expression assigned to Name ``e``."""
-    if not isinstance(e, ast.Name):
-        raise Unsupported(f"{fi.fq}: project name/version is not a local")
-    defs = [st for st in fi.local_nodes() if isinstance(st, ast.Assign) and any(_is_name(t, e.id) for t in st.targets)]
-    if len(defs) != 1:
-        raise Unsupported(f"{fi.fq}: `{e.id}` has {len(defs)} definitions")
-    sl = [n for n in ast.walk(defs[0].value) if isinstance(n, ast.Subscript) and isinstance(n.slice, ast.Slice)]
-    if len(sl) != 1 or sl[0].slice.upper is not None or not isinstance(sl[0].slice.lower, ast.Constant):
-        raise Unsupported(f"{fi.fq}: `{short(defs[0], 50)}` is not a `[n:]` slice")
-    return sl[0].slice.lower.value
+def _slice_offset(corpus: Corpus, fi: FunctionInfo, e, ctx: tuple = (), depth: int = 0) -> int:
+    """lower bound of the ``[n:]`` slice in the expression that defines ``e`` (followed through one local,
+    a helper's parameter - ``ctx`` is the chain of (caller, call) - and a helper's return value)."""
+    if depth > 6:
+        raise Unsupported(f"{fi.fq}: definition of project name/version too deep")
+    if isinstance(e, ast.Name):
+        defs = [st for st in fi.local_nodes() if isinstance(st, (ast.Assign, ast.AnnAssign)) and st.value is not None and any(_is_name(n, e.id) and isinstance(n.ctx, ast.Store) for t in (st.targets if isinstance(st, ast.Assign) else [st.target]) for n in ast.walk(t))]
+        if not defs and e.id in fi.params and ctx:
+            caller, call = ctx[-1]
+            arg = _param_arg(fi, call, e.id)
+            if arg is None:
+                raise Unsupported(f"{fi.fq}: no argument for `{e.id}` at {caller.module.site(call)}")
+            return _slice_offset(corpus, caller, arg, ctx[:-1], depth + 1)
+        if len(defs) != 1:
+            raise Unsupported(f"{fi.fq}: `{e.id}` has {len(defs)} definitions")
+        d = defs[0]
+        tg = d.targets[0] if isinstance(d, ast.Assign) else d.target
+        if isinstance(tg, (ast.Tuple, ast.List)):  # a, b = helper(...)  /  a, b = x[11:], y[11:]
+            idx = [i for i, t in enumerate(tg.elts) if _is_name(t, e.id)]
+            if len(idx) != 1:
+                raise Unsupported(f"{fi.fq}: `{short(d, 50)}` not understood")
+            if isinstance(d.value, (ast.Tuple, ast.List)) and len(d.value.elts) == len(tg.elts):
+                return _slice_offset(corpus, fi, d.value.elts[idx[0]], ctx, depth + 1)
+            if isinstance(d.value, ast.Call):
+                t = _callee(corpus, fi, d.value)
+                rets = [r for r in t.local_nodes() if isinstance(r, ast.Return)] if t is not None else []
+                if len(rets) == 1 and isinstance(rets[0].value, ast.Tuple) and len(rets[0].value.elts) == len(tg.elts):
+                    return _slice_offset(corpus, t, rets[0].value.elts[idx[0]], ctx + ((fi, d.value),), depth + 1)
+            raise Unsupported(f"{fi.fq}: `{short(d, 50)}` not understood")
+        return _slice_offset(corpus, fi, d.value, ctx, depth + 1)
+    sl = [n for n in ast.walk(e) if isinstance(n, ast.Subscript) and isinstance(n.slice, ast.Slice)]
+    if len(sl) == 1 and sl[0].slice.upper is None and sl[0].slice.step is None and isinstance(sl[0].slice.lower, ast.Constant):
+        return sl[0].slice.lower.value
+    if not sl and isinstance(e, ast.Call):  # value produced by a helper: follow its single return
+        t = _callee(corpus, fi, e)
+        rets = [r for r in t.local_nodes() if isinstance(r, ast.Return)] if t is not None else []
+        if len(rets) == 1 and rets[0].value is not None:
+            return _slice_offset(corpus, t, rets[0].value, ctx + ((fi, e),), depth + 1)
+    raise Unsupported(f"{fi.fq}: `{short(e, 50)}` is not a `[n:]` slice")
 
 
-def _proj_version_exprs(fi: FunctionInfo):
+def _proj_version_exprs(corpus: Corpus, fi: FunctionInfo, ctx: tuple = (), depth: int = 0):
+    """(function, call context, name expr, version expr): where project name and version are put into the
+    result, in ``fi`` itself or in a private helper it calls (two levels)."""
     for n in fi.local_nodes():
         if isinstance(n, ast.Dict) and _dict_value(n, "name") is not None and _dict_value(n, "version") is not None:
-            return _dict_value(n, "name"), _dict_value(n, "version")
+            return fi, ctx, _dict_value(n, "name"), _dict_value(n, "version")
     for n in fi.local_nodes():
         if isinstance(n, ast.Call) and kwarg(n, "project_name") is not None and kwarg(n, "project_version") is not None:
-            return kwarg(n, "project_name"), kwarg(n, "project_version")
+            return fi, ctx, kwarg(n, "project_name"), kwarg(n, "project_version")
     for n in fi.local_nodes():
         if isinstance(n, ast.Assign) and isinstance(n.targets[0], ast.Subscript) and isinstance(n.value, ast.Tuple) and len(n.value.elts) == 4:
-            return n.value.elts[0], n.value.elts[1]
+            return fi, ctx, n.value.elts[0], n.value.elts[1]
+    if depth < 2:
+        for call, t in _callees(corpus, fi):
+            try:
+                return _proj_version_exprs(corpus, t, ctx + ((fi, call),), depth + 1)
+            except Unsupported:
+                continue
     raise Unsupported(f"{fi.fq}: where project name and version are stored was not found")
+
+
+def _offsets(corpus: Corpus, fi: FunctionInfo) -> tuple:
+    owner, ctx, ne, ve = _proj_version_exprs(corpus, fi)
+    return tuple(_slice_offset(corpus, owner, e, ctx) for e in (ne, ve))
 
 
 def _v2_consts(fi: FunctionInfo, roles: dict) -> dict[str, set]:
@@ -1821,8 +1932,8 @@ def r5_constants(corpus: Corpus, rep: Report, tier: str):
             rep.violation(rid, k, A.load.site(), f"the {role} loader is selected by header {mine!r}, Sphinx {ver} selects it by {s_hdr[sf.name]!r}")
     # (2) offsets of project name / version
     for role, mf, sf in (("v1", A.v1, A.s_v1), ("v2", A.v2, A.s_v2)):
-        mo = tuple(_slice_offset(mf, e) for e in _proj_version_exprs(mf))
-        so = tuple(_slice_offset(sf, e) for e in _proj_version_exprs(sf))
+        mo = _offsets(corpus, mf)
+        so = _offsets(corpus, sf)
         k = f"{mf.fq}|project/version offsets"
         if mo == so:
             rep.ok(rid, k, mf.site(), f"{mo}")
